@@ -51,7 +51,8 @@ class Peer:
             self.log.append(('withdraw', k))
         for pid, lab, rd, bits, body in d['nlri']:
             k = (1, bits, body)
-            self.table[k] = (nh, med)
+            # (next hop, MED) -- and the extended communities octet for octet when there are any
+            self.table[k] = (nh, med) + ((attrs[16].hex(),) if 16 in attrs else ())
             self.log.append(('announce', k, nh, med))
         for afi, safi, nhb, pfx in d['mp_reach']:
             for pid, lab, rd, bits, body in pfx:
@@ -74,7 +75,8 @@ def reported(rib):
     out = {}
     for r in rib.cached_routes():
         med = r.attributes.get(Attribute.CODE.MED, None)
-        out[key_of(r)] = (str(r.nexthop), int(med.med) if med is not None and hasattr(med, 'med') else (int(str(med)) if med is not None else None))
+        ext = r.attributes.get(Attribute.CODE.EXTENDED_COMMUNITY, None)
+        out[key_of(r)] = (str(r.nexthop), int(med.med) if med is not None and hasattr(med, 'med') else (int(str(med)) if med is not None else None)) + ((bytes(ext._packed).hex(),) if ext is not None else ())
     return out
 
 
